@@ -4,6 +4,7 @@ import (
 	"context"
 	"errors"
 	"fmt"
+	"runtime"
 	"strings"
 	"sync"
 	"sync/atomic"
@@ -157,6 +158,10 @@ type c03Height struct {
 	s    *c03Sq
 	ops  []c03Op
 	next int
+	// hold / entered (directed scenarios): an op of kind "hold" signals entered and waits for hold
+	// (or its context) before it serves according to its shape
+	hold    chan struct{}
+	entered chan struct{}
 }
 
 type c03Scripted struct {
@@ -241,6 +246,19 @@ func (g *c03Scripted) GetSamples(ctx context.Context, hdr *header.ExtendedHeader
 		return out
 	}
 
+	if op.Kind == "hold" {
+		if h.entered != nil {
+			select {
+			case h.entered <- struct{}{}:
+			default:
+			}
+		}
+		select {
+		case <-h.hold:
+		case <-ctx.Done():
+		}
+		op.Kind = "serve"
+	}
 	switch op.Kind {
 	case "nilerr":
 		err := c03OpErr(op.Err)
@@ -673,4 +691,87 @@ func (e *c03Exec) calls(specs []c03CallSpec, burst bool) {
 		e.c.run.Inconclusive(fmt.Sprintf("history %d: calls did not return within the watchdog", e.h.ID))
 		e.dead = true
 	}
+}
+
+
+// c03waiterGivesUp: one check of a block hangs in the network (call L inside the getter), a second
+// caller for the same block gives up while it waits its turn (call W, cancelled), a third one arrives
+// before L has finished (call T). T belongs behind L: whatever it requests must be the coordinates drawn
+// for the block (the pending ones), not a set of its own — judged by the chain oracle of getterCall.
+// The pauses only let W and T reach the place where they wait; no verdict depends on them.
+func (c *c03) waiterGivesUp(rng *vkit.RNG, pool *c03Pool) {
+	run := c.run
+	n := vkit.Scale(40, 400)
+	for i := 0; i < n; i++ {
+		r := rng.SplitN("wgu", i)
+		w := vkit.Pick(r, []int{2, 4, 8})
+		s := pool.byW[w][r.Intn(len(pool.byW[w]))]
+		N := vkit.Pick(r, []int{4, 16})
+		first := c03Op{Kind: "hold", Shape: vkit.Pick(r, []string{"none", "one", "random", "all"}), Seed: r.Uint64()}
+		h := &c03Hist{ID: 900000 + i, N: N, Heights: []c03HSpec{{W: w, Kind: "in", ScriptS: "hold/" + first.Shape}},
+			Steps: []c03Step{{Kind: "directed: L holds in the getter, W gives up while waiting, T arrives, L is released"}}}
+		mon := c.newMon("directed", "scripted", h)
+		sg := &c03Scripted{c: c, hs: map[uint64]*c03Height{}}
+		height := uint64(10)
+		hh := &c03Height{s: s, ops: []c03Op{first}, hold: make(chan struct{}), entered: make(chan struct{}, 1)}
+		sg.hs[height] = hh
+		hdr := vkit.MinimalHeader(height, s.sq.Roots, time.Now().Add(-time.Hour))
+		rt := mon.addRoot("b0", s.sq, hdr, N, "in")
+		rec := &c03RecGetter{Getter: sg, mon: mon}
+		inst := light.NewShareAvailability(rec, dssync.MutexWrap(datastore.NewMapDatastore()), nil, light.WithSampleAmount(uint(N)))
+		start := func(name string) (*c03Call, chan struct{}) {
+			call := &c03Call{rt: rt}
+			call.ctl = c03NewCtx(call, false)
+			done := make(chan struct{})
+			go func() {
+				defer close(done)
+				mon.saCall(call)
+				var err error
+				if run.NoPanic("C03 SharesAvailable", map[string]any{"history": h}, func() { err = inst.SharesAvailable(call.ctl, hdr) }) {
+					return
+				}
+				mon.saReturn(call, err)
+			}()
+			return call, done
+		}
+		pause := func() {
+			for k := 0; k < 50; k++ {
+				runtime.Gosched()
+			}
+			time.Sleep(3 * time.Millisecond)
+		}
+		_, doneL := start("L")
+		select {
+		case <-hh.entered:
+		case <-time.After(30 * time.Second):
+			run.Inconclusive("directed waiter scenario: the first call never reached the getter")
+			close(hh.hold)
+			continue
+		}
+		callW, doneW := start("W")
+		pause()
+		callW.ctl.finish(context.Canceled)
+		select {
+		case <-doneW:
+		case <-time.After(30 * time.Second):
+			run.Inconclusive("directed waiter scenario: the cancelled waiter did not return")
+		}
+		mon.note("-- the waiting caller W was cancelled and returned; T arrives while L is still in the getter --")
+		callT, doneT := start("T")
+		pause()
+		close(hh.hold)
+		for _, d := range []chan struct{}{doneL, doneT} {
+			select {
+			case <-d:
+			case <-time.After(60 * time.Second):
+				run.Inconclusive("directed waiter scenario: a call did not return after the release")
+			}
+		}
+		callT.ctl.finish(context.Canceled)
+		run.Eval(1)
+		run.Count("directed/waiter-gives-up/scenarios", 1)
+		run.Distinct(fmt.Sprintf("directed|wgu|%d|%d|%s", w, N, first.Shape))
+		_ = inst.Close(context.Background())
+	}
+	run.Require("directed/waiter-gives-up/scenarios", n*9/10)
 }
